@@ -99,6 +99,13 @@ def rnd_rows(rng):
     return rng.choice(["[%s]", "{\"rows\":[%s]}", "[[%s]]"]) % ",".join(rows)
 
 
+def rnd_keylike(rng):
+    """objects whose member names look like numbers, keywords or nothing at all; empty containers at every position"""
+    names = rng.sample(["2024", "0", "-7", "1.5", "1e3", "true", "null", "", " ", "00", "9223372036854775808", "-0", "a", "[]", "{}"], rng.randrange(1, 6))
+    vals = [rng.choice(["[]", "{}", "null", "[[]]", "{\"0\":[]}", "1", "\"\"", "[{}]", "[null]"]) for _ in names]
+    return rng.choice(["%s", "[%s]", "{\"k\":%s}"]) % ("{" + ",".join("\"%s\":%s" % kv for kv in zip(names, vals)) + "}")
+
+
 def rnd_big_object(rng):
     """objects with 21 .. 70 members, some names repeated (the last one counts), in random order"""
     n = rng.choice([21, 22, 25, 33, 50, 70])
@@ -312,6 +319,7 @@ def run(ctx):
     texts += [rnd_number(rng) for _ in range(3000 if q else 400000)]
     texts += [rnd_rows(rng) for _ in range(600 if q else 60000)]
     texts += [rnd_big_object(rng) for _ in range(300 if q else 30000)]
+    texts += [rnd_keylike(rng) for _ in range(400 if q else 40000)]
     texts += [rnd_string(rng) for _ in range(500 if q else 50000)]
     texts += [malformed(rng) for _ in range(1000 if q else 150000)]
     texts += ["[" * d + "1" + "]" * d for d in (1, 64, 126, 127, 128, 129, 500)]
@@ -346,6 +354,8 @@ def run(ctx):
                 bad.append("searching with `@` does not return the parsed value unchanged")
             if kv.get("value") != "same":
                 bad.append("conversion to/from serde_json::Value is not lossless: " + str(kv.get("value")))
+            if kv.get("deser") not in ("same", None):
+                bad.append("decoding the value into serde_json::Value (Variable as a Deserializer) does not give the JSON it serialises to: " + str(kv.get("deser")))
             rp = kv.get("reparse", "")
             if rp != "same" and not (rp.startswith("DIFF:") and within_ulps(rp[5:], fi[0][3:], 2)):
                 bad.append("printing and re-parsing does not yield an equal value (beyond the parser's documented 2-ulp accuracy)")
